@@ -179,16 +179,16 @@ def r2(ctx):
             ctx.ob(fi.qual, "results-order:%s" % u(v)[:40], False, fi.loc(s), "`%s = %s` reaches aggregate_results without an ascending-block-id guarantee" % (rname, u(v)[:80]))
     # handles consumed in submission order
     gets = [n for n in walk_function(fi.node) if isinstance(n, ast.ListComp) and isinstance(n.elt, ast.Call) and isinstance(n.elt.func, ast.Attribute) and n.elt.func.attr == "get"]
-    ok = len(gets) == 1 and u(gets[0].generators[0].iter) == "process_results" and u(gets[0].elt.func.value) == u(gets[0].generators[0].target)
+    ok = (None if not gets else (len(gets) == 1 and u(gets[0].generators[0].iter) == "process_results" and u(gets[0].elt.func.value) == u(gets[0].generators[0].target)))
     ctx.ob(fi.qual, "handles-consumed-in-submission-order", ok, fi.loc(gets[0]) if gets else fi.loc(), "every apply_async handle is waited for, in submission order" if ok else "pool handles are not collected as [res.get() for res in process_results]")
     # block id travels with the job
     mt = ctx.func("whatshap.polyphase.algorithm.phase_single_block_mt")
     params = util.params_of(mt.node)
     subs = [c for c in ctx.prog.calls_in(fi.node, include_nested=True) if isinstance(c.func, ast.Attribute) and c.func.attr == "apply_async"]
-    ok = len(subs) == 1 and u(subs[0].args[0]) == "phase_single_block_mt" and isinstance(subs[0].args[1], ast.Tuple)
+    ok = (None if not subs else (len(subs) == 1 and u(subs[0].args[0]) == "phase_single_block_mt" and isinstance(subs[0].args[1], ast.Tuple)))
     if ok:
         tup = subs[0].args[1].elts
-        ok = len(tup) == len(params) and all((not isinstance(a, ast.Name)) or a.id == p for a, p in zip(tup, params))
+        ok = (None if not tup else (len(tup) == len(params) and all((not isinstance(a, ast.Name)) or a.id == p for a, p in zip(tup, params))))
     ctx.ob(fi.qual, "job-arguments-match-parameters", ok, fi.loc(subs[0]) if subs else fi.loc(), "the argument tuple of apply_async lines up with phase_single_block_mt's parameters (block_id travels with its interval)" if ok else "apply_async argument tuple does not line up with phase_single_block_mt%s" % (tuple(params),))
     # sibling agreement: the single-threaded call and the pool wrapper hand phase_single_block the same job
     import copy
@@ -223,7 +223,7 @@ def r2(ctx):
 
     st_calls = [c for c in ctx.prog.calls_in(fi.node, include_nested=True) if u(c.func) == "phase_single_block"]
     mt_inner = [c for c in ctx.prog.calls_in(mt.node) if u(c.func) == "phase_single_block"]
-    ok = len(st_calls) == 1 and len(mt_inner) == 1 and len(subs) == 1 and isinstance(subs[0].args[1], ast.Tuple)
+    ok = (None if not st_calls else (len(st_calls) == 1 and len(mt_inner) == 1 and len(subs) == 1 and isinstance(subs[0].args[1], ast.Tuple)))
     detail = "call sites not found"
     if ok:
         bind = dict(zip(params, subs[0].args[1].elts))
